@@ -29,7 +29,9 @@ CFG = dict(
          "i32 series: half_life panics in T::none() (DESIGN 5.4), reproduced by the model. nt=0 marks empty input.",
     theorem_hint="Props/C20.v: C20_winsorize_quantile, C20_winsorize_median, C20_winsorize_sigma, C20_clip_laws, "
                  "C20_quantile_bounds_ordered, C20_spearman, C20_rank_invariant, C20_spearman_invariant, "
-                 "C20_half_life_total, C20_half_life_threshold",
+                 "C20_half_life_total, C20_half_life_threshold, C20_winsorize_encoding, C20_vcorr_encoding, "
+                 "C20_*_opt / C20_*_i32 (Option<f64> and i32 lifts), C20_half_life_probe_sequence, C20_half_life_crossing, "
+                 "C20_autocorr_defined_iff_enough_pairs",
     level_text="Proof (Coq): winsorize (model assembled from the C11-C13 models of vquantile, vmedian, vmean_var, vclip) "
                "equals map (clip lo hi) over the cast input with (lo, hi) the q / 1-q linear quantiles, median -/+ k MAD, "
                "mean -/+ k sigma of the valid data, lo <= hi (interpolated quantile monotone in q; MAD >= 0; sigma >= 0), "
@@ -37,8 +39,18 @@ CFG = dict(
                "Pearson of the average ranks (C12 characterisation), ranks and therefore Spearman invariant under strictly "
                "increasing maps of either series; half_life never runs out of fuel, never panics, returns a lag in "
                "0..=len-1 (0 iff len < 2) and the first non-exceeding lag capped at len-1 for a threshold autocorrelation, "
-               "for the executable oracle vcorr_pearson(xs, vshift(xs, lag)) > 0.5. Model tied to the code by the "
-               "differential run described in `rule`.",
+               "for the executable oracle vcorr_pearson(xs, vshift(xs, lag)) > 0.5. "
+               "Element types: winsorize, vcorr (Pearson / Spearman) and half_life are proved encoding independent for every "
+               "carrier (binary64 included) and every two null dictionaries on series with the same option view, so every "
+               "winsorize / rank / Spearman theorem is also stated and proved for Option<f64> series (Some (Some r) | None) and "
+               "for i32 series over their f64 cast (C20_*_opt, C20_*_i32). "
+               "Half-life probes: a traced copy of the two loops (erasure = the model) probes exactly 1, 2, 4, .., 2^j with j "
+               "the first exponent at which the test fails, then exactly the bisection midpoints determined by the answers, "
+               "each strictly inside the bracket; the result is the cap len-1 or a genuine down-crossing (test false at r, true "
+               "at r-1 or r = 1) inside (2^(j-1), 2^j] - for the executable oracle and EVERY min_periods; the oracle itself is "
+               "Pearson's r of the complete pairs (x[i+lag], x[i]), null iff fewer than max(min_periods, 2) such pairs or zero "
+               "spread, so a lag leaving exactly min_periods pairs is evaluated. Nothing is partial. "
+               "Model tied to the code by the differential run described in `rule`.",
     level_note="Trusted: Coq kernel + Reals axioms for the option-R theorems (the half-life theorems over an abstract oracle are "
                "axiom-free); the hand-written model; std's select_nth / sort post-conditions (C12); binary64 rounding is "
                "outside the theorems and absorbed by the tolerances; the EPS = 1e-14 variance floor of the Sigma method is "
